@@ -304,30 +304,58 @@ func checkC30(c *Ctx, r *Report) {
 	}
 	// R6: start-up
 	r6 := r.Rule("R6", "E-ORDER/ok", "NewManager demotes all pending tasks to failed (loop over GetPending with MarkFailed, error ⇒ return) before starting workers", 2)
-	if nm := r.MustFunc(r6, pkgPR+".NewManager"); nm != nil {
-		marks := callsInNamed(nm, "(*"+pkgPR+".manager).markPendingTasksAsFailed")
-		starts := callsInNamed(nm, "(*"+pkgPR+".manager).start")
-		ok := len(marks) == 1 && len(starts) >= 1
-		for _, s := range starts {
-			if !ok || !inSuccessRegion(marks[0].Instr, s.Instr) {
-				ok = false
-			}
-		}
-		r.Check(ok, r6, nm, "start after demotion", nil, "markPendingTasksAsFailed succeeded before start", "workers are started before (or without) demoting tasks left pending by a previous process: they are never executed again")
-	}
-	if mp := r.MustFunc(r6, "(*"+pkgPR+".manager).markPendingTasksAsFailed"); mp != nil {
-		ok := false
-		for _, l := range rangeLoops(mp) {
+	// the demotion step is found by what it does: the function of the package, called
+	// by NewManager, that asks the store for the pending tasks (or NewManager itself)
+	demotionLoop := func(fn *ssa.Function) (*RangeLoop, ssa.CallInstruction) {
+		for _, l := range rangeLoops(fn) {
 			if !mentionsCall(l.Ranged, mS("GetPending")) {
 				continue
 			}
-			for _, cs := range callsInNamed(mp, mS("MarkFailed")) {
+			for _, cs := range callsInNamed(fn, mS("MarkFailed")) {
 				if l.everyIteration(cs.Instr) && l.derivesFromElem(cs.Instr.Common().Args[0]) {
-					ok = true
+					return l, cs.Instr
 				}
 			}
 		}
-		r.Check(ok, r6, mp, "demotion loop", nil, "each pending task is marked failed", "not every task returned by GetPending is marked failed at start-up")
+		return nil, nil
+	}
+	if nm := r.MustFunc(r6, pkgPR+".NewManager"); nm != nil {
+		starts := callsInNamed(nm, "(*"+pkgPR+".manager).start")
+		var mp *ssa.Function
+		var marks []*CallSite
+		for _, cs := range callsIn(nm) {
+			h := cs.Instr.Common().StaticCallee()
+			if h != nil && h.Pkg == nm.Pkg && len(h.Blocks) > 0 && len(callsInNamed(h, mS("GetPending"))) > 0 {
+				mp = h
+				marks = append(marks, cs)
+			}
+		}
+		switch {
+		case mp != nil:
+			ok := len(marks) == 1 && len(starts) >= 1
+			for _, s := range starts {
+				if !ok || !inSuccessRegion(marks[0].Instr, s.Instr) {
+					ok = false
+				}
+			}
+			r.Check(ok, r6, nm, "start after demotion", nil, "the demotion step succeeded before start", "workers are started before (or without) demoting tasks left pending by a previous process: they are never executed again")
+			l, _ := demotionLoop(mp)
+			r.Check(l != nil, r6, mp, "demotion loop", nil, "each pending task is marked failed", "not every task returned by GetPending is marked failed at start-up")
+		case len(callsInNamed(nm, mS("GetPending"))) > 0:
+			// inline form: the loop is in NewManager; workers start after it has
+			// completed, on the success side of every MarkFailed
+			l, mf := demotionLoop(nm)
+			ok := l != nil && len(starts) >= 1
+			for _, s := range starts {
+				if !ok || !l.completedBefore(s.Instr) || !inSuccessRegion(mf, s.Instr) {
+					ok = false
+				}
+			}
+			r.Check(ok, r6, nm, "start after demotion", nil, "the demotion loop completed before start", "workers are started before (or without) demoting tasks left pending by a previous process: they are never executed again")
+			r.Check(l != nil, r6, nm, "demotion loop", nil, "each pending task is marked failed", "not every task returned by GetPending is marked failed at start-up")
+		default:
+			r.Bad(r6, nm, "start after demotion", nil, "workers are started before (or without) demoting tasks left pending by a previous process: they are never executed again")
+		}
 	}
 	// R7: workers execute what they receive; SyncExec runs the executor
 	r7 := r.Rule("R7", "flow", "a worker passes every task received from its queue to exec", 1)
